@@ -772,6 +772,9 @@ func (h *harness) account(cr caseResult, found *findings) (class string) {
 	r.Bucket("queries_sent", int64(obs.Queries))
 	r.Bucket("queries_answered", int64(obs.Answered))
 	r.Bucket("effective_size_probes_applied", int64(len(obs.Probes)))
+	if (c.Stream == "enum-spelling" || c.Stream == "enum-dependent") && obs.Verdict != "ambiguous" {
+		r.Bucket("enum_spelling_cases_decided", 1)
+	}
 	if cl := obs.ConnLimit; cl != nil && cl.Ran {
 		r.Bucket("connlimit_scripts_run", 1)
 		r.Bucket("connlimit_listeners_served_after_resume", int64(len(cl.Served)))
@@ -876,7 +879,7 @@ func TestCheck(t *testing.T) {
 	defer r.Finish()
 	r.Rule("cases = mutated copies of config.dist.yaml run by the real binary: every single-field mutation of every numeric / duration / size / enum / " +
 		"cross-referenced-id scalar to {0, -1, 1, documented bound, bound+1, large, type maximum (durations), removed, other enum values / ids, bogus}, " +
-		"every mapping/sequence node at depth 1 and 2 removed or written as null, plus every value combination of the documented cross-field constraints (cache type/sizes, stop/resume, KV type/TTL, DDR ports) and seeded random pairs (and triples in the thorough tier) within one section, two thirds of their values drawn from those accepted alone; class key = the list of (yaml path = value class); " +
+		"every mapping/sequence node at depth 1 and 2 removed or written as null, every string enum written in non-canonical spellings (letter case, surrounding spaces, near misses) alone and with the zero / missing values of the properties that depend on it, plus every value combination of the documented cross-field constraints (cache type/sizes, stop/resume, KV type/TTL, DDR ports) and seeded random pairs (and triples in the thorough tier) within one section, two thirds of their values drawn from those accepted alone; class key = the list of (yaml path = value class); " +
 		"non-trivial = the child reached a decisive observation: rejected with its message examined, or accepted and at least one query answered")
 	r.Assume("a YAML type error that gives the line number of the mutated property counts as naming it")
 	r.Assume("a duration of 1ns / a size of 1B is a legal positive value: a start-up operation that reports hitting that limit, and queries that time out under a 1ns duration, are the configured behaviour, not violations (panics and crashes still are)")
@@ -922,6 +925,7 @@ func TestCheck(t *testing.T) {
 		return
 	}
 	fields, skipped := catalogue(h.baseLoc.Tree)
+	spellFs := enumSpellingFields(fields)
 	sectionFs := sectionFields(h.baseLoc.Tree)
 	r.Bucket("sections_removed_or_nulled", int64(len(sectionFs)))
 	r.Extra("numeric_scalars_not_mutated", skipped)
@@ -993,7 +997,7 @@ func TestCheck(t *testing.T) {
 		}
 	}
 	if only != "" {
-		ms, perr := parseOnly(only, append(append([]field(nil), fields...), sectionFs...))
+		ms, perr := parseOnly(only, append(append(append([]field(nil), fields...), sectionFs...), spellFs...))
 		if perr != nil {
 			r.Inconclusive(perr.Error())
 			return
@@ -1020,6 +1024,14 @@ func TestCheck(t *testing.T) {
 			singles = append(singles, caseSpec{Stream: "section", Idx: len(singles), Muts: []mutation{{Path: f.Path, Kind: f.Kind, Value: v}}})
 		}
 	}
+	nSpell := 0
+	for _, f := range spellFs {
+		for _, v := range f.Values {
+			nSpell++
+			singles = append(singles, caseSpec{Stream: "enum-spelling", Idx: len(singles), Muts: []mutation{{Path: f.Path, Kind: f.Kind, Value: v}}})
+		}
+	}
+	r.Bucket("cases_enum_spelling", int64(nSpell))
 	if lim := atoiDefault(os.Getenv("C20_LIMIT"), 0); lim > 0 && lim < len(singles) {
 		singles = singles[:lim]
 	}
@@ -1095,6 +1107,11 @@ func TestCheck(t *testing.T) {
 		combos = append(combos, caseSpec{Stream: "connlimit", Idx: i, Muts: ms})
 	}
 	r.Bucket("cases_connlimit", int64(len(clCases)))
+	depCases := enumDependentCases(spellFs, fields)
+	for i, ms := range depCases {
+		combos = append(combos, caseSpec{Stream: "enum-dependent", Idx: i, Muts: ms})
+	}
+	r.Bucket("cases_enum_spelling_with_dependent", int64(len(depCases)))
 	gen("pair", r.N(150, 6000), 2)
 	gen("triple", r.N(0, 3000), 3)
 	r.Bucket("cases_combination", int64(len(combos)))
@@ -1113,6 +1130,9 @@ func TestCheck(t *testing.T) {
 	r.Require("queries_answered", 10000)
 	r.Require("effective_size_probes_applied", 100)
 	r.Require("connlimit_scripts_run", 6)
+	r.Require("cases_enum_spelling", 40)
+	r.Require("cases_enum_spelling_with_dependent", 40)
+	r.Require("enum_spelling_cases_decided", 80)
 	if n := r.BucketGet("ambiguous"); n > 5 {
 		r.Inconclusive(fmt.Sprintf("%d executions ended without a decisive observation (watchdogs / port collisions)", n))
 	}
